@@ -155,6 +155,8 @@ func clearCaches() {
 
 func runSelfTest(repo, verifDir, prop string, spec *propSpec, findings []Finding) selfTestResult {
 	var res selfTestResult
+	quietView = true
+	defer func() { quietView = false }()
 	dirs, _ := filepath.Glob(filepath.Join(verifDir, "seeded", "*"))
 	sort.Strings(dirs)
 	for _, d := range dirs {
